@@ -274,11 +274,15 @@ theorem arrayLoop_uid {p : PM Gen} (hp : UidP p e) : ∀ (n : Nat) (s : PState) 
   | 0, s, lo, hlo => by rw [arrayLoop]; exact MQ.pure hlo trivial
   | n + 1, s, lo, hlo => by
     rw [arrayLoop]
+    simp only [getTokenpos_bind]
     refine MQ.bind (hp s lo hlo) ?_
     intro v s1 hlo1 hv
-    refine MQ.bind (arrayLoop_uid hp n s1 lo hlo1) ?_
-    intro vs s2 hlo2 hvs
-    exact MQ.pure hlo2 (by rw [uidOkL_cons]; exact ⟨hv, hvs⟩)
+    simp only [getTokenpos_bind]
+    split
+    · exact MQ.pure hlo1 (by rw [uidOkL_cons, uidOkL_nil]; exact ⟨hv, trivial⟩)
+    · refine MQ.bind (arrayLoop_uid hp n s1 lo hlo1) ?_
+      intro vs s2 hlo2 hvs
+      exact MQ.pure hlo2 (by rw [uidOkL_cons]; exact ⟨hv, hvs⟩)
 
 theorem uidOkL_reverse_cons (v : Gen) (acc : List Gen) (hv : UidOk v) (h : UidOkL acc.reverse) :
     UidOkL (v :: acc).reverse := by
@@ -535,14 +539,17 @@ theorem fromSpec_uid (f32 : List Char → Option (List Char)) (ctx : Ctx) (sp : 
   refine MQ.attemptB (itemP_uid f32 sp ctx s lo hlo) ?_ ?_
   · intro g s1 hlo1 hg
     dsimp only
+    simp only [getEnv_bind]
+    refine MQ.bind (skipComments_mono ctx _ s1 lo hlo1) ?_
+    intro _ s2 hlo2 _
     simp only [peekToken_bind]
-    cases e.toks[s1.pos]? with
-    | none => exact hreset s1 hlo1
+    cases e.toks[s2.pos]? with
+    | none => exact hreset s2 hlo2
     | some t =>
       dsimp only
       split
-      · exact MQ.pure hlo1 (fun g' h => by cases h; exact uidOk_makeBlock _ _ hg)
-      · exact hreset s1 hlo1
+      · exact MQ.pure hlo2 (fun g' h => by cases h; exact uidOk_makeBlock _ _ hg)
+      · exact hreset s2 hlo2
   · intro d s1 hlo1
     exact hreset s1 hlo1
 
@@ -683,7 +690,12 @@ theorem l_uid_step {fuel : Nat} (ih : AllUid e fuel) (ctx : Ctx) (acc : List (TI
   refine MQ.attemptB (getNextTagOrComment_mono ctx s s.seqId (Nat.le_refl _)) ?_ ?_
   · intro bc s1 hlo1 _
     cases bc with
-    | comment tok off => exact hstop s1 hlo1
+    | comment tok off =>
+      refine MQ.weaken (ih.l ctx acc s1 s.seqId hlo1) (Nat.le_refl _) ?_
+      intro vs s' ⟨new, hvs, hnew, hmono⟩
+      refine ⟨new, hvs, ⟨hnew.1, fun x hx => ?_⟩, by omega⟩
+      have := hnew.2 x hx
+      exact ⟨by omega, this.2⟩
     | none => exact hstop s1 hlo1
     | block tok isBlock startOff =>
       dsimp only
